@@ -132,7 +132,8 @@ Proof. exact parse_int_exact_lemma. Qed.
 Check parse_int_exact : forall u v r, 2 <= r <= 36 -> 0 <= u < INF -> int_value u = Some v ->
   num_of r (span_radix r (dstr r v)) = v /\ round_nneg v 1 = u.
 
-(* ---- boa's hand-written digit algorithms (Code_C13, transliterated) do NOT have the property: witnesses ----------- *)
+(* ---- boa's hand-written digit algorithms as they were on the pinned tree db7050e (Code_C13, transliterated) do NOT
+        have the property: witnesses.  (fixes.d/C13-*.patch replace these algorithms; see design.d/C13.md) ------------- *)
 
 (* toPrecision on top of format!("{:.100}"): (5e-324).toPrecision(1) = "0e+101" *)
 Theorem to_precision_model_refuted : exists bits p, to_precision_model bits (Some p) <> to_precision_spec bits (Some p).
